@@ -1,56 +1,162 @@
 ----------------------------- MODULE Trace_SyncPrims -----------------------------
-(* V binding for C13 (Semaphore / Mutex / Condition): validates the hook-event log of free-running, jittered
-   producer/consumer and condition-variable executions (harness/c13_record.cpp).  Log order is the order in which the
-   events were appended under the recorder's log lock; hooks fire *before* a releasing operation (post, unlock,
-   cond wait) and *after* an acquiring one (wait return, lock return, cond wait return), so in log order every
-   acquisition must be explainable by the releases logged before it - exactly the enabling conditions of
-   SyncPrims' actions (WaitRet: sem > 0; WLock/WWake: owner = 0).
-   Event kinds: 23 sem post (v = n), 25 sem wait returned, 21 mutex acquired, 22 mutex about to be released,
-   27 cond wait about to release the mutex, 28 cond wait returned with the mutex, 101 semaphore created (v = count),
-   102 condition bound to mutex (v = mutex index), 103 item published, 104 item taken, 105 end of execution,
-   121 summary of o unlogged start/join rounds with v violations of ThreadLife's JoinAfterBody/FinishedAfterJoin,
-   0 reset.  All other hook kinds are stuttering steps.                                                        *)
-EXTENDS Naturals, FiniteSets, Sequences, TLC, Json, IOUtils
+(* V binding for C13 (Semaphore / Mutex / Lock / Condition / Atomic, timed and non-blocking variants included):
+   validates the event log of free-running, jittered executions (harness/c13_record.cpp).
+
+   Log order is the order in which the events were appended under the recorder's log lock, i.e. a real-time order of
+   the logging instants.  Two kinds of events bracket every library call:
+     "begin" events are logged BEFORE the call starts  (library hooks 20 lock, 23 post, 24 wait, 22 unlock, 27 cond wait;
+                                                         recorder events 110 timed/try wait, 112 value, 115 timed cond
+                                                         wait, 117 trylock)
+     "end"   events are logged AFTER the call returned  (library hooks 21, 25, 28; recorder events 106 post completed,
+                                                         111, 113, 114 unlock completed / Lock scope left, 116, 118).
+   From such a log two bounds on the real value of every semaphore (a mutex is a semaphore that starts at 1) are sound
+   at every logging instant:
+     hi  (variables sem / owner)  = units whose release has BEGUN  minus acquisitions that have RETURNED
+     lo                           = units whose release has COMPLETED minus acquisitions that have BEGUN
+                                    (an acquisition that failed is added back when its failure is logged)
+   real value is within [lo, hi] at all times.  What can be concluded:
+     * an acquisition that returned "acquired" needs hi > 0 at its end event            (never a return without a post /
+                                                                                          mutual exclusion) - as before
+     * a timed wait, trywait or trylock that returned "not acquired" needs an instant inside its begin..end interval at
+       which lo, not counting the caller itself, was <= 0.  If lo stayed positive for the whole interval a unit was
+       available to this caller during the entire call and it still came back empty-handed: a lost post (SyncPrims
+       WaitFail / TryFail are enabled only when the wait cannot be satisfied).  pend[t].mn tracks min(lo) over the
+       interval; lo already contains -1 for the caller, so the test is  mn < 0.
+     * value() = v needs  min(lo) <= v <= max(hi) over its interval, and v >= 0.
+     * a timed wait that reports a time-out must have lasted (almost) as long as the time-out (field w, ms).
+   Event kinds:  0 reset, 101 semaphore created (v = count), 102 condition bound to mutex (v = mutex index),
+   103 item published, 104 item taken, 105 end of execution, 26 signal (must hold the bound mutex: documented protocol),
+   109 ++atomic returned v, 119 plain counter of mutex o read as v and written v + 1 inside the critical section,
+   121 summary of unlogged start/join rounds, 129/130 sleep(double) begin (v = request in 0.1 ms) / end (v = measured
+   duration in 0.1 ms), 131 Thread::numProcessors() = v, 132 a signal handler interrupted the thread (environment, no
+   effect on any primitive - SyncPrims Interrupt).  All other kinds are stuttering steps.                          *)
+EXTENDS Integers, FiniteSets, Sequences, TLC, Json, IOUtils
 
 T == ndJsonDeserialize(IOEnv.TRACE)
-VARIABLES l, sem, owner, bind, produced, consumed
-vars == <<l, sem, owner, bind, produced, consumed>>
+VARIABLES l, sem, owner, bind, produced, consumed,
+          lo,        \* lower bound per object (semaphores: set by 101; mutexes: 1)
+          pend,      \* thread -> [o, mn, mx, w] of its timed / non-blocking call in progress
+          aseen,     \* <<atomic object, value returned by ++>>
+          cnt        \* plain counter protected by mutex o (119: read v, write v + 1 inside the critical section)
+vars == <<l, sem, owner, bind, produced, consumed, lo, pend, aseen, cnt>>
 
-Objs == 0..63
+Objs == 0..127
+SlackMs == 2          \* clock granularity: gettimeofday deadline vs. monotonic measurement
 Init == /\ l = 1
         /\ sem = [o \in Objs |-> 0] /\ owner = [o \in Objs |-> 0] /\ bind = [o \in Objs |-> 0]
         /\ produced = {} /\ consumed = {}
+        /\ lo = [o \in Objs |-> 1] /\ pend = <<>> /\ aseen = {} /\ cnt = [o \in Objs |-> 0]
 
-Modeled == {0, 21, 22, 23, 25, 27, 28, 101, 102, 103, 104, 105, 121}
+Modeled == {0, 20, 21, 22, 23, 24, 25, 26, 27, 28, 101, 102, 103, 104, 105, 106, 109, 110, 111, 112, 113, 114, 115, 116, 117, 118,
+            119, 121, 129, 130, 131, 132}
+
+Min2(a, b) == IF a < b THEN a ELSE b
+Max2(a, b) == IF a > b THEN a ELSE b
+\* lo / hi of object o become nlo / nhi: every call in progress on o remembers the extremes
+Track(o, nlo, nhi) == [t \in DOMAIN pend |-> IF pend[t].o = o
+                                              THEN [pend[t] EXCEPT !.mn = Min2(@, nlo), !.mx = Max2(@, nhi)]
+                                              ELSE pend[t]]
+Begin(t, o, nlo, nhi, w) == [x \in (DOMAIN pend) \cup {t} |->
+                               IF x = t THEN [o |-> o, mn |-> nlo, mx |-> nhi, w |-> w] ELSE Track(o, nlo, nhi)[x]]
+Finish(t) == [x \in (DOMAIN pend) \ {t} |-> pend[x]]
+Pending(t, o) == t \in DOMAIN pend /\ pend[t].o = o
+U1 == UNCHANGED <<bind, produced, consumed, aseen, cnt>>
 
 Step ==
   /\ l <= Len(T) /\ l' = l + 1
   /\ LET e == T[l] IN
      \/ /\ e.k = 0
         /\ sem' = [o \in Objs |-> 0] /\ owner' = [o \in Objs |-> 0] /\ bind' = [o \in Objs |-> 0]
-        /\ produced' = {} /\ consumed' = {}
-     \/ /\ e.k \notin Modeled /\ UNCHANGED <<sem, owner, bind, produced, consumed>>
-     \/ /\ e.k = 101 /\ sem' = [sem EXCEPT ![e.o] = e.v] /\ UNCHANGED <<owner, bind, produced, consumed>>
-     \/ /\ e.k = 102 /\ bind' = [bind EXCEPT ![e.o] = e.v] /\ UNCHANGED <<sem, owner, produced, consumed>>
-     \/ /\ e.k = 23 /\ sem' = [sem EXCEPT ![e.o] = @ + e.v] /\ UNCHANGED <<owner, bind, produced, consumed>>
+        /\ produced' = {} /\ consumed' = {} /\ lo' = [o \in Objs |-> 1] /\ pend' = <<>> /\ aseen' = {} /\ cnt' = [o \in Objs |-> 0]
+     \/ /\ e.k \notin Modeled /\ UNCHANGED <<sem, owner, bind, produced, consumed, lo, pend, aseen, cnt>>
+     \/ /\ e.k = 101 /\ sem' = [sem EXCEPT ![e.o] = e.v] /\ lo' = [lo EXCEPT ![e.o] = e.v]
+        /\ UNCHANGED <<owner, pend>> /\ U1
+     \/ /\ e.k = 102 /\ bind' = [bind EXCEPT ![e.o] = e.v] /\ UNCHANGED <<sem, owner, produced, consumed, lo, pend, aseen, cnt>>
+     (* ---- semaphore ---- *)
+     \/ /\ e.k = 23 /\ sem' = [sem EXCEPT ![e.o] = @ + e.v]                    \* post begins
+        /\ pend' = Track(e.o, lo[e.o], sem'[e.o]) /\ UNCHANGED <<owner, lo>> /\ U1
+     \/ /\ e.k = 106 /\ lo' = [lo EXCEPT ![e.o] = @ + e.v]                      \* post completed
+        /\ UNCHANGED <<sem, owner, pend>> /\ U1
+     \/ /\ e.k = 24 /\ lo' = [lo EXCEPT ![e.o] = @ - 1]                         \* blocking wait begins
+        /\ pend' = Track(e.o, lo'[e.o], sem[e.o]) /\ UNCHANGED <<sem, owner>> /\ U1
      \/ /\ e.k = 25 /\ sem[e.o] > 0                                  \* a wait returned: there was a post for it
-        /\ sem' = [sem EXCEPT ![e.o] = @ - 1] /\ UNCHANGED <<owner, bind, produced, consumed>>
+        /\ sem' = [sem EXCEPT ![e.o] = @ - 1] /\ UNCHANGED <<owner, lo, pend>> /\ U1
+     \/ /\ e.k = 110 /\ e.t \notin DOMAIN pend                                  \* wait(timeout) / trywait begins
+        /\ lo' = [lo EXCEPT ![e.o] = @ - 1]
+        /\ pend' = Begin(e.t, e.o, lo'[e.o], sem[e.o], e.v) /\ UNCHANGED <<sem, owner>> /\ U1
+     \/ /\ e.k = 111 /\ Pending(e.t, e.o)                                       \* ... returned, v = 2 * duration ms + result
+        /\ IF e.v % 2 = 1
+           THEN /\ sem[e.o] > 0                                                 \* acquired: there was a post for it
+                /\ sem' = [sem EXCEPT ![e.o] = @ - 1] /\ UNCHANGED lo
+           ELSE /\ pend[e.t].mn < 0                                             \* gave up: at some instant nothing was available
+                /\ (e.v \div 2) + SlackMs >= pend[e.t].w                        \* and not before the time-out
+                /\ lo' = [lo EXCEPT ![e.o] = @ + 1] /\ UNCHANGED sem            \* without consuming a post
+        /\ pend' = Finish(e.t) /\ UNCHANGED owner /\ U1
+     \/ /\ e.k = 112 /\ e.t \notin DOMAIN pend                                  \* value() begins
+        /\ pend' = Begin(e.t, e.o, lo[e.o], sem[e.o], 0) /\ UNCHANGED <<sem, owner, lo>> /\ U1
+     \/ /\ e.k = 113 /\ Pending(e.t, e.o)                                       \* value() = v
+        /\ e.v >= 0 /\ e.v >= pend[e.t].mn /\ e.v <= pend[e.t].mx
+        /\ pend' = Finish(e.t) /\ UNCHANGED <<sem, owner, lo>> /\ U1
+     (* ---- mutex / Lock ---- *)
+     \/ /\ e.k = 20 /\ lo' = [lo EXCEPT ![e.o] = @ - 1]                         \* lock() begins
+        /\ pend' = Track(e.o, lo'[e.o], 0) /\ UNCHANGED <<sem, owner>> /\ U1
      \/ /\ e.k = 21 /\ owner[e.o] = 0                                 \* mutual exclusion
-        /\ owner' = [owner EXCEPT ![e.o] = e.t + 1] /\ UNCHANGED <<sem, bind, produced, consumed>>
+        /\ owner' = [owner EXCEPT ![e.o] = e.t + 1] /\ UNCHANGED <<sem, lo, pend>> /\ U1
      \/ /\ e.k = 22 /\ owner[e.o] = e.t + 1
-        /\ owner' = [owner EXCEPT ![e.o] = 0] /\ UNCHANGED <<sem, bind, produced, consumed>>
-     \/ /\ e.k = 27 /\ owner[bind[e.o]] = e.t + 1                     \* wait is called with the mutex held
-        /\ owner' = [owner EXCEPT ![bind[e.o]] = 0] /\ UNCHANGED <<sem, bind, produced, consumed>>
-     \/ /\ e.k = 28 /\ owner[bind[e.o]] = 0
-        /\ owner' = [owner EXCEPT ![bind[e.o]] = e.t + 1] /\ UNCHANGED <<sem, bind, produced, consumed>>
+        /\ owner' = [owner EXCEPT ![e.o] = 0] /\ UNCHANGED <<sem, lo, pend>> /\ U1
+     \/ /\ e.k = 114 /\ owner[e.o] # e.t + 1                                    \* unlock() returned / Lock scope left: not held by t
+        /\ lo' = [lo EXCEPT ![e.o] = @ + 1] /\ UNCHANGED <<sem, owner, pend>> /\ U1
+     \/ /\ e.k = 117 /\ e.t \notin DOMAIN pend                                  \* trylock() begins
+        /\ lo' = [lo EXCEPT ![e.o] = @ - 1]
+        /\ pend' = Begin(e.t, e.o, lo'[e.o], 0, 0) /\ UNCHANGED <<sem, owner>> /\ U1
+     \/ /\ e.k = 118 /\ Pending(e.t, e.o)                                       \* trylock() = v
+        /\ IF e.v = 1
+           THEN /\ owner[e.o] = 0 /\ owner' = [owner EXCEPT ![e.o] = e.t + 1] /\ UNCHANGED lo
+           ELSE /\ pend[e.t].mn < 0                                             \* refused: it may have been held at some instant
+                /\ lo' = [lo EXCEPT ![e.o] = @ + 1] /\ UNCHANGED owner
+        /\ pend' = Finish(e.t) /\ UNCHANGED sem /\ U1
+     \/ /\ e.k = 119 /\ owner[e.o] = e.t + 1 /\ cnt[e.o] = e.v                 \* inside the critical section: no update lost
+        /\ cnt' = [cnt EXCEPT ![e.o] = e.v + 1] /\ UNCHANGED <<sem, owner, bind, produced, consumed, lo, pend, aseen>>
+     (* ---- condition ---- *)
+     \/ /\ e.k = 26 /\ owner[bind[e.o]] = e.t + 1                     \* documented protocol: signal with the mutex held
+        /\ UNCHANGED <<sem, owner, lo, pend>> /\ U1
+     \/ /\ e.k \in {27, 115} /\ owner[bind[e.o]] = e.t + 1            \* wait is called with the mutex held
+        /\ owner' = [owner EXCEPT ![bind[e.o]] = 0]
+        /\ lo' = [lo EXCEPT ![bind[e.o]] = @ - 1]                               \* release not known complete; re-acquisition begun
+        /\ LET p1 == Track(bind[e.o], lo'[bind[e.o]], 0) IN
+           IF e.k = 115 THEN /\ e.t \notin DOMAIN pend
+                             /\ pend' = [x \in (DOMAIN p1) \cup {e.t} |->
+                                           IF x = e.t THEN [o |-> e.o, mn |-> 0, mx |-> 0, w |-> e.v] ELSE p1[x]]
+                        ELSE pend' = p1
+        /\ UNCHANGED sem /\ U1
+     \/ /\ e.k \in {28, 116} /\ owner[bind[e.o]] = 0                  \* returns holding the mutex again
+        /\ owner' = [owner EXCEPT ![bind[e.o]] = e.t + 1]
+        /\ lo' = [lo EXCEPT ![bind[e.o]] = @ + 1]                               \* its own release certainly completed
+        /\ IF e.k = 116
+           THEN /\ Pending(e.t, e.o)
+                /\ (e.v % 2 = 1) => (e.v \div 2) + SlackMs >= pend[e.t].w      \* "true" = timed out (documented): not early
+                /\ pend' = Finish(e.t)
+           ELSE UNCHANGED pend
+        /\ UNCHANGED sem /\ U1
+     (* ---- items, atomics, helpers ---- *)
      \/ /\ e.k = 103 /\ e.v \notin produced
-        /\ produced' = produced \cup {e.v} /\ UNCHANGED <<sem, owner, bind, consumed>>
+        /\ produced' = produced \cup {e.v} /\ UNCHANGED <<sem, owner, bind, consumed, lo, pend, aseen, cnt>>
      \/ /\ e.k = 104 /\ e.v \in produced /\ e.v \notin consumed        \* taken once, and only after it was published
-        /\ consumed' = consumed \cup {e.v} /\ UNCHANGED <<sem, owner, bind, produced>>
+        /\ consumed' = consumed \cup {e.v} /\ UNCHANGED <<sem, owner, bind, produced, lo, pend, aseen, cnt>>
+     \/ /\ e.k = 109 /\ <<e.o, e.v>> \notin aseen                               \* ++x on an Atomic: every value returned once
+        /\ aseen' = aseen \cup {<<e.o, e.v>>} /\ UNCHANGED <<sem, owner, bind, produced, consumed, lo, pend, cnt>>
      \* summary of e.o start/join rounds without logging: join() returned, the body had run exactly once and finished() was true
-     \/ /\ e.k = 121 /\ e.v = 0 /\ UNCHANGED <<sem, owner, bind, produced, consumed>>
+     \/ /\ e.k = 121 /\ e.v = 0 /\ UNCHANGED <<sem, owner, bind, produced, consumed, lo, pend, aseen, cnt>>
+     \/ /\ e.k = 129 /\ e.t \notin DOMAIN pend /\ pend' = Begin(e.t, e.o, 0, 0, e.v)
+        /\ UNCHANGED <<sem, owner, lo>> /\ U1
+     \/ /\ e.k = 130 /\ Pending(e.t, e.o) /\ e.v + 1 >= pend[e.t].w              \* sleep(s) lasts at least s
+        /\ pend' = Finish(e.t) /\ UNCHANGED <<sem, owner, lo>> /\ U1
+     \/ /\ e.k = 131 /\ e.v >= 1 /\ UNCHANGED <<sem, owner, bind, produced, consumed, lo, pend, aseen, cnt>>
+     \/ /\ e.k = 132 /\ UNCHANGED <<sem, owner, bind, produced, consumed, lo, pend, aseen, cnt>>
      \/ /\ e.k = 105 /\ consumed = produced /\ \A o \in Objs : owner[o] = 0   \* nothing lost, no mutex left held
-        /\ UNCHANGED <<sem, owner, bind, produced, consumed>>
+        /\ DOMAIN pend = {}
+        /\ \A p \in aseen : p[2] >= 1 /\ p[2] <= Cardinality({q \in aseen : q[1] = p[1]})   \* the ++ results are 1..n
+        /\ UNCHANGED <<sem, owner, bind, produced, consumed, lo, pend, aseen, cnt>>
 
 TraceSpec == Init /\ [][Step]_vars
 TraceAccepted == TLCGet("stats").diameter - 1 = Len(T)
